@@ -114,7 +114,26 @@ def recvTyOf : Sexp → Option RecvTy
   | .list [.atom "init", t] => (tyOf [] 0 t).map .init
   | t => (tyOf [] 0 t).map .plain
 
+def outcomeStr : Outcome → String
+  | .ran i => s!"ran {i}"
+  | .reported => "reported ILLEGAL_ARGUMENTS"
+
+def callOf : Sexp → Option (List Val × Option Blk)
+  | .list [.atom "c", .list (.atom "args" :: args), blk] => do some (← args.mapM valOf, ← blkOf blk)
+  | _ => none
+
 def exec : List Sexp → String
+  | [.atom "calls", .list (.atom "lt" :: lt), .list (.atom "ds" :: ds), .list (.atom "seq" :: calls)] =>
+    match envOf lt, calls.mapM callOf with
+    | some env, some cs =>
+      match ds.mapM (creatorOf env) with
+      | none => "bad-op"
+      | some crs =>
+        match runSeq Alpha.inst Alpha.binst crs cs with
+        | .builderRejected _ => "builder-rejected"
+        | .resolveFailed .sizeError => "reported ILLEGAL_ARGUMENTS"
+        | .called os => " | ".intercalate (os.map outcomeStr)
+    | _, _ => "bad-op"
   | [.atom "newm", r, .list (.atom "args" :: args)] =>
     match recvTyOf r, args.mapM valOf with
     | some recv, some vs =>
